@@ -23,6 +23,9 @@ KIND = {"out": "tracker", "man": "manual", "in1": "incoming", "in2": "incoming",
 DHT_SETTLE = 1700
 INFLIGHT_MS = 300       # connections / ut_pex messages logged less than this after the refusal of the metadata count as in flight before it
 INFLIGHT_DHT_MS = 500   # same for KRPC queries (the defect it guards shows up anywhere within 1 s after the refusal)
+INFLIGHT_LOOP_MS = 400  # ... when the refusal was logged by the torrent's loop itself (slow-stop scenarios): only the way of the datagram is in flight
+SLOWSTOP = {"slowstop": 2000, "dhtminann": 150}    # environment fault "tracker slow to answer the stopped event" + configuration dht-min-announce-interval
+RERUN_TAGS = ("C19.metadata.leak.dht.stopping",)    # scheduling-dependent observations: candidates, re-executed in isolation
 
 
 def S(do, peer="", k=""):
@@ -76,6 +79,20 @@ def fixed_scenarios():
         add(enc=e, mode="magnet", pre=[S("magnet")], steps=[S("magnet"), S("remove"), S("magnet")])
         add(enc=e, mode="magnet", pre=[S("magnet")], steps=[S("close"), S("magnet")])
         add(enc=e, resume="full", steps=[S("magnetrace")])
+    # a co-tenant (public torrent / magnet link of the same session announcing to the same tracker URL) was added first
+    for e in ("i1", "s1", "absent", "list"):
+        for co in ("file", "magnet"):
+            add(enc=e, cotenant=co, steps=[S("in", "in1"), S("announce"), S("magnet")])
+    add(enc="i1", cotenant="file", steps=[S("restart"), S("announce")])
+    add(enc="i1", cotenant="magnet", resume="nobf", steps=[S("in", "in1")])
+    add(enc="i1", cotenant="file", resume="partial", steps=[S("stopstart")])
+    add(enc="i1", cotenant="magnet", mode="magnet", steps=[S("manual")])
+    # the tracker is slow to answer the "stopped" event: the torrent that refused private metadata stays in Stopping state
+    # (DHT on; the announcer queues a request every dhtminann ms while the torrent runs)
+    for e in ("i1", "i1", "s1", "dict", "absent"):
+        add(enc=e, dht=True, mode="magnet", steps=[], **SLOWSTOP)
+    add(enc="i1", dht=True, mode="magnet", cotenant="file", steps=[S("magnet")], **SLOWSTOP)
+    add(enc="i2", dht=True, mode="magnet", pre=[S("pex", "out", "a")], steps=[S("manual")], **SLOWSTOP)
     return out
 
 
@@ -97,6 +114,10 @@ def generated_scenarios(ctx, rng, n, ndht):
             sc["resume"] = rng.choice(["nobf", "nobf", "partial", "full"])
         if dht and mode == "file" and rng.random() < 0.4:
             sc["sibling"] = True
+        if rng.random() < 0.2:
+            sc["cotenant"] = rng.choice(["file", "magnet"])
+        if dht and mode == "magnet" and rng.random() < 0.5:
+            sc.update(SLOWSTOP)
         if mode == "magnet" and rng.random() < 0.4:
             sc["pre"] = [S("pex", "out", rng.choice(["a", "d", "ad"]))] + ([S("magnet")] if rng.random() < 0.5 else [])
         out.append(sc)
@@ -179,7 +200,7 @@ def project(raw_path, info):
         priv = encv not in PUBLIC_VALUES
         fact["priv"], fact["encv"] = priv, encv
         a = [{"ev": "init", "sid": sid, "encv": encv, "priv": priv, "dht": bool(ini["dht"]), "pex": bool(ini["pex"]),
-              "sibling": bool(ini["sibling"]), "mode": ini["mode"]}]
+              "sibling": bool(ini["sibling"]), "mode": ini["mode"], "co": ini.get("co", "none"), "slowstop": ini.get("slowstop", 0)}]
         seen_ident = set()
         na, tprev = 0, evs[0]["t_ms"]
         for e in evs[1:]:
@@ -188,7 +209,7 @@ def project(raw_path, info):
                 x["t"] = tprev
             na = len(a)
             tprev = e["t_ms"]
-            if k in ("start", "stop", "trkreply", "addpeer", "sibling", "dhtvalues"):
+            if k in ("start", "stop", "stopped", "trkreply", "addpeer", "sibling", "dhtvalues"):
                 a.append({"ev": k})
             elif k == "reload":
                 a.append({"ev": "reload", "bf": e["bf"] == 1})
@@ -211,7 +232,7 @@ def project(raw_path, info):
             elif k == "dht" and e.get("match") == 1 and e["q"] in ("get_peers", "announce_peer"):
                 a.append({"ev": "dhtq", "q": e["q"], "who": e["who"] or "?"})
             elif k == "meta":
-                a.append({"ev": "meta", "outcome": e["outcome"]})
+                a.append({"ev": "meta", "outcome": e["outcome"], "loop": e.get("at") == "loop"})
             elif k == "magnet":
                 a.append({"ev": "magnet", "err": bool(e["err"])})
             elif k == "ident":
@@ -246,7 +267,7 @@ def reorder_inflight(a):
             rest = []
             for x in out[i + 1:]:
                 if (x["ev"] in ("dial", "pexrx") and x["t"] < e["t"] + INFLIGHT_MS) or \
-                        (x["ev"] in ("dhtq", "dhtvalues") and x["t"] < e["t"] + INFLIGHT_DHT_MS):
+                        (x["ev"] in ("dhtq", "dhtvalues") and x["t"] < e["t"] + (INFLIGHT_LOOP_MS if e.get("loop") else INFLIGHT_DHT_MS)):
                     moved.append(x)
                 else:
                     rest.append(x)
@@ -257,8 +278,8 @@ def reorder_inflight(a):
 
 
 def sc_class(sc):
-    return "enc=%s mode=%s pex=%d dht=%d sib=%d resume=%s steps=%s" % (sc["enc"], sc.get("mode", "file"), sc.get("pex", False), sc.get("dht", False),
-                                                           sc.get("sibling", False), sc.get("resume") or "-",
+    return "enc=%s mode=%s pex=%d dht=%d sib=%d resume=%s co=%s slowstop=%d steps=%s" % (sc["enc"], sc.get("mode", "file"), sc.get("pex", False), sc.get("dht", False),
+                                                           sc.get("sibling", False), sc.get("resume") or "-", sc.get("cotenant") or "-", sc.get("slowstop", 0),
                                                            ",".join(":".join(x for x in (s["do"], s.get("peer", ""), s.get("k", "")) if x)
                                                                     for s in (sc.get("pre") or []) + [S("|")] + sc["steps"]))
 
@@ -298,8 +319,8 @@ def run(ctx):
 
 def design_level(ctx, ex):
     futs = [ex.submit(ctx.tlc_mc, "MC_Private", ctx.pick("MC_Private.cfg", "MC_Private_h6.cfg"), 1800, ctx.pick(6, 8))]
-    asis = ctx.pick(["pexrecv", "dhtrecv", "pending", "loadident", "magnetgone"],
-                    ["pexrecv", "dhtrecv", "pending", "adopt", "pexsend", "dhtstart", "magnet", "loadident", "magnetgone"])
+    asis = ctx.pick(["pexrecv", "dhtrecv", "pending", "loadident", "magnetgone", "pendinglate", "sharedtracker"],
+                    ["pexrecv", "dhtrecv", "pending", "adopt", "pexsend", "dhtstart", "magnet", "loadident", "magnetgone", "pendinglate", "sharedtracker"])
     noticed = {}
     ctx.extra["guards_noticed_by_invariant"] = noticed
 
@@ -409,6 +430,35 @@ def scenarios_level(ctx):
             if k == "obs": ctx.oblig("C19.flag/obs")
         ctx.count_case(sc_class(by_id[sid]), nontrivial)
     ctx.extra["controls"] = ctl
+    try:
+        # the new axes were really exercised: a private torrent announced while a co-tenant held the same tracker URL; a refusing torrent
+        # stayed in Stopping state for more than one DHT tick after DHT queries for it had been seen at the ticks before
+        ax = {"cotenant_private_announces": 0, "cotenant_kinds": {}, "slowstop_refusals_stopping_over_1s": 0, "slowstop_refusals_with_dht_tick_before": 0,
+              "stopping_window_ms": []}
+        for sid, evs in abstract.items():
+            ini = evs[0]
+            if ini["priv"] and ini["co"] != "none":
+                n = sum(1 for e in evs if e["ev"] == "ident" and e["what"] == "ua")
+                ax["cotenant_private_announces"] += n
+                if n:
+                    ax["cotenant_kinds"][ini["co"] + ":" + ini["mode"]] = ax["cotenant_kinds"].get(ini["co"] + ":" + ini["mode"], 0) + 1
+            if ini["priv"] and ini["slowstop"]:
+                for i, e in enumerate(evs):
+                    if e["ev"] == "meta" and e["outcome"] == "refused" and e.get("loop"):
+                        st = next((x for x in evs[i + 1:] if x["ev"] == "stopped"), None)
+                        if st is not None:
+                            ax["stopping_window_ms"].append(st["t"] - e["t"])
+                            if st["t"] - e["t"] >= 1000:
+                                ax["slowstop_refusals_stopping_over_1s"] += 1
+                                if any(x["ev"] == "dhtq" for x in evs[:i]):
+                                    ax["slowstop_refusals_with_dht_tick_before"] += 1
+        ax["stopping_window_ms"] = sorted(ax["stopping_window_ms"])[:40]
+        ctx.extra["new_axes_exercised"] = ax
+        if ax["cotenant_private_announces"] == 0 or ax["slowstop_refusals_with_dht_tick_before"] == 0:
+            # (recorded, not fatal: under heavy machine load the slow-stop scenarios may miss the DHT tick)
+            ctx.extra["new_axes_not_reached"] = True
+    except Exception as ex:      # evidence only: never decides the outcome
+        ctx.extra["new_axes_exercised_error"] = repr(ex)
     ctx.extra["remark_addresses_of_the_pex_dropped_list_dialled_by_public_torrents"] = dropped_dialled[0]
     # (refused_private / magnet_err_private are the property's own positive side: counted, not required)
     missing = [k for k, v in ctl.items() if v == 0 and k not in ("refused_private", "magnet_err_private")]
@@ -417,8 +467,40 @@ def scenarios_level(ctx):
     k0 = sorted(abstract)[0]
     ctx.sample({"scenario": by_id[k0], "abstract_trace_prefix": abstract[k0][:16]})
     # 3. TLC judge
+    notes, seen = {}, set()
+    candidates = {}
+    unrepro = []
+    ctx.extra["unreproduced_timing_candidates"] = unrepro
+    for tag, sid, pos in tlc_judge(ctx, abstract, "abs.ndjson"):
+        if tag in RERUN_TAGS:
+            candidates.setdefault((tag, sc_class(by_id[sid])), sid)
+            continue
+        report(ctx, tag, sid, pos, abstract, by_id, notes, seen)
+    # scheduling-dependent observations are candidates: the scenario is re-executed in isolation (up to three times) and only
+    # what shows again is reported
+    for (tag, cls), sid in sorted(candidates.items())[:4]:
+        again = None
+        for attempt in range(3):
+            raws, _ = run_scenarios(ctx, drv, [by_id[sid]], nproc=1, per_timeout=40)
+            ab2 = {}
+            for rp in raws:
+                ab2.update(project(rp, {}))
+            hits = [(t, s2, p2) for t, s2, p2 in tlc_judge(ctx, ab2, "abs-rerun.ndjson") if t == tag] if ab2 else []
+            if hits:
+                again = (hits[0], ab2)
+                break
+        if again:
+            (t, s2, p2), ab2 = again
+            report(ctx, t, s2, p2, ab2, by_id, notes, seen)
+        else:
+            unrepro.append({"tag": tag, "scenario": cls})
+    ctx.extra["notes_outside_the_property"] = {k: {"count": len(v), "example": v[0]} for k, v in notes.items()}
+
+
+def tlc_judge(ctx, abstract, name):
+    """-> [(tag, sid, position in the scenario's abstract trace)] as printed by Trace_Private (@@VIOL)"""
     order = sorted(abstract)
-    cur = ctx.path("abs.ndjson")
+    cur = ctx.path(name)
     index = []
     with open(cur, "w") as fh:
         for sid in order:
@@ -428,20 +510,25 @@ def scenarios_level(ctx):
     res = ctx.tlc_validate("Trace_Private", cur, ntraces=len(order), timeout=1500)
     if res["hwm"] is not None and not res["ok"]:
         raise vlib.MachineryError("Trace_Private could not explain line %s (driver/spec mismatch):\n%s" % (res["hwm"], res["out"][-2500:]))
-    notes, seen = {}, set()
+    out = []
     for tag, line in res["viols"]:
         n = 0
         for sid, ln in index:
             if n + ln >= line:
                 break
             n += ln
-        pos = line - n
+        out.append((tag, sid, line - n))
+    return out
+
+
+def report(ctx, tag, sid, pos, abstract, by_id, notes, seen):
+    if True:
         ev = abstract[sid][pos - 1]
         sc = by_id[sid]
         ini = abstract[sid][0]
         if tag.startswith("NOTE"):
             notes.setdefault(tag, []).append(sc_class(sc))
-            continue
+            return
         # the stimulus class that explains the observation: which peer kinds sent PEX / whether DHT values were returned
         before = abstract[sid][:pos]
         pexfrom = sorted({e["p"] for e in before if e["ev"] == "pexmsg"})
@@ -456,13 +543,12 @@ def scenarios_level(ctx):
         if ev["ev"] == "obs" and tag == "C19.sources.connected":
             bads = [s for s in ev["srcs"] if s not in ("tracker", "manual", "incoming")] or [""]
         for bad in bads:
-            sig = "tag=%s mode=%s reading=%s pex=%d dht=%d sibling=%d ev=%s src=%s q=%s what=%s cls=%s pexfrom=%s dhtvalues=%d after=%s bad=%s life=%s" % (
+            sig = "tag=%s mode=%s reading=%s pex=%d dht=%d sibling=%d ev=%s src=%s q=%s what=%s cls=%s pexfrom=%s dhtvalues=%d after=%s bad=%s life=%s cotenant=%s slowstop=%d" % (
                 tag, ini["mode"], ini["encv"], ini["pex"], ini["dht"], ini["sibling"], ev["ev"], ev.get("src", "-"),
                 ev.get("q", "-"), ev.get("what", "-"), ev.get("cls", "-"), "+".join(pexfrom) or "-",
-                any(e["ev"] == "dhtvalues" for e in before), "refused" if refused else "-", bad or "-", life)
+                any(e["ev"] == "dhtvalues" for e in before), "refused" if refused else "-", bad or "-", life, ini.get("co", "none"), ini.get("slowstop", 0))
             if (sig, tag) in seen:
                 continue
             seen.add((sig, tag))
             ctx.violation(tag, sig, "private-torrent scenario violates %s at %s" % (tag, json.dumps(ev)[:200]),
                           {"scenario": sc, "abstract_trace": abstract[sid][:pos]})
-    ctx.extra["notes_outside_the_property"] = {k: {"count": len(v), "example": v[0]} for k, v in notes.items()}
